@@ -2,4 +2,4 @@
 # content hash of the repository working tree + the verification sources that go into a build
 . /verif/env.sh
 ( cd "$VERIF_REPO" && find . -name .git -prune -o -type f \( -name '*.go' -o -name go.mod -o -name go.sum -o -name '*.proto' \) -print0 | sort -z | xargs -0 sha1sum
-  cd /verif && find mc e1 instr vlib seq scripts -type f \( -name '*.go' -o -name go.mod -o -name '*.sh' \) -print0 2>/dev/null | sort -z | xargs -0 sha1sum ) | sha1sum | cut -c1-16
+  cd /verif && find mc e1 instr vlib scripts -type f \( -name '*.go' -o -name go.mod -o -name '*.sh' \) -print0 2>/dev/null | sort -z | xargs -0 sha1sum ) | sha1sum | cut -c1-16
